@@ -114,7 +114,8 @@ CLASSES['CoderState']['ghosts'] = {'nprims': z3.IntSort(), 'prim': _AI, 'pdesc':
 CLASSES['CoderState']['ghost_facts'] = {'nprims': lambda z: z >= 0}       # a call counter
 CLASSES.update({
     'Coder': dict(bases=[], module='pybufrkit.coder', fields={}),
-    'BitOperator': dict(bases=[], fields={}),
+    # the bit reader / writer as the generic walker sees it: whatever the concrete class, its stream is the modelled bit stream
+    'BitOperator': dict(bases=[], fields={'bit_stream': Ref('BitStream')}),
     'Decoder': dict(bases=['Coder'], module='pybufrkit.decoder',
                     fields={'compiled_template_manager': Ref('CompiledTemplateManager'), 'tables_root_dir': STR}),
     'Encoder': dict(bases=['Coder'], module='pybufrkit.encoder',
@@ -245,6 +246,44 @@ def section_contains(eng, ctx, st, sec, item):
     has, _ = section_lookup(eng, st, sec, item.z)
     return has
 
+
+# spec forms over a section's ordered parameter list --------------------------------------------------------------------------
+_poff = z3.Function('param_offset', z3.ArraySort(z3.IntSort(), z3.IntSort()), z3.ArraySort(z3.IntSort(), z3.IntSort()), z3.IntSort(), z3.IntSort())
+
+
+def sf_poff(eng, ctx, st, args):
+    """poff(section, k): the sum of `nbits` of the first k parameters (recursive definition; every mention is unfolded once:
+    poff(s, k) == 0 for k <= 0, else poff(s, k - 1) + nbits of parameter k - 1)"""
+    sec, k = args
+    lst = SV(ListT(Ref('SectionParameter')), z3.Select(st.hget(E.fkey('_params', ListT(Ref('SectionParameter')))), sec.z))
+    arr = eng.list_arr(st, lst)
+    nb = st.hget(E.fkey('nbits', INT))
+    t = _poff(arr, nb, k.z)
+    st.assume(t == z3.If(k.z <= 0, I(0), _poff(arr, nb, k.z - 1) + z3.Select(nb, z3.Select(arr, k.z - 1))))
+    return SV(INT, t)
+
+
+def sf_phas(eng, ctx, st, args):
+    """phas(section, name): some parameter of the section carries the name (a closed formula: no side facts, so it can be
+    evaluated in a pre-state copy)"""
+    sec, name = args
+    lst = SV(ListT(Ref('SectionParameter')), z3.Select(st.hget(E.fkey('_params', ListT(Ref('SectionParameter')))), sec.z))
+    n = eng.list_len(st, lst)
+    arr = eng.list_arr(st, lst)
+    names = st.hget(E.fkey('name', STR))
+    j = fresh('j', z3.IntSort())
+    return SV(BOOL, z3.Exists([j], z3.And(0 <= j, j < n, z3.Select(names, z3.Select(arr, j)) == name.z)))
+
+
+def sf_pindex(eng, ctx, st, args):
+    """pindex(section, name): position of the first parameter of that name (meaningful when phas(section, name))"""
+    sec, name = args
+    has, p = section_lookup(eng, st, sec, name.z)
+    lst = SV(ListT(Ref('SectionParameter')), z3.Select(st.hget(E.fkey('_params', ListT(Ref('SectionParameter')))), sec.z))
+    return SV(INT, _secidx(eng.list_arr(st, lst), eng.list_len(st, lst), st.hget(E.fkey('name', STR)), name.z))
+
+
+BI.EXTRA_SPEC_FORMS.update({'poff': sf_poff, 'phas': sf_phas, 'pindex': sf_pindex})
 
 CLASSES['BufrSection']['hooks'] = {'iter': section_iter, 'len': section_len, 'getattr': section_getattr, 'contains': section_contains}
 
